@@ -361,8 +361,11 @@ def random_axes(draw, n, max_size):
             axes.append(sorted(shift + step * p + off for p in pts))
     elif family == "float":
         tol = draw(st.one_of(st.sampled_from([0.0, 0.5, 1.0]), st.floats(0.0, 3.0)))
+        # multiples of 2^-20 in [-10, 10]: distinct points are resolvable by float subtraction.  (Aligned points closer
+        # than one rounding error of ``target - v`` - e.g. 0.0 and -4e-242 seen from 1.0 - make the alignment itself
+        # a float-fragile decision that can even reverse the order of a dataset's points; outside the stated domain.)
         axes = [
-            sorted(draw(st.lists(st.floats(-10.0, 10.0, allow_nan=False), min_size=1, max_size=max_size, unique=True)))
+            sorted(q / 2.0**20 for q in draw(st.lists(st.integers(-10 * 2**20, 10 * 2**20), min_size=1, max_size=max_size, unique=True)))
             for _ in range(n)
         ]
     else:  # points a hair's breadth inside / outside the tolerance, on either side
@@ -565,7 +568,7 @@ PROPERTY = Property(
         "(thorough: all; quick: every 19th inside each (order, method, tolerance) stratum, phase chosen by VERIF_SEED). "
         "Weights on some datasets, label permutation, data layout, model-axis sizes 1-3 are chosen by a hash of the case index "
         "(not exhaustive). random: Hypothesis, 2-4 datasets (mostly 4), axes of 1-8 points from scaled/shifted grids with "
-        "offsets, random floats, and points placed at tolerance*(1+-1e-15..1e-3) from a target. optimize: Hypothesis, 2-4 datasets, "
+        "offsets, random multiples of 2^-20 in [-10,10], and points placed at tolerance*(1+-1e-15..1e-3) from a target. optimize: Hypothesis, 2-4 datasets, "
         "axes of 1-4 points, seeded noisy data, link_clp true, one function evaluation. A case is non-trivial if tolerance > 0 and "
         "the alignment has at least one aligned point shared by several datasets and one that is not; distinct = distinct case digest."
     ),
@@ -583,7 +586,7 @@ PROPERTY = Property(
         "a distance within 1e-9*max(1,|v|,|t|,tol) of the tolerance (but not exactly equal) may or may not count; candidates whose distances "
         "differ by less than that band may resolve either way; AlignDatasetError is admissible iff some admissible assignment merges two points "
         "of one dataset and required iff all do",
-        "axes strictly increasing and finite, tolerance >= 0, data free of NaN (documented caller-respected domain); neutral dataset labels dsA..dsD",
+        "axes strictly increasing (docs: 'monotonic increasing coordinates (as one should)') and finite, tolerance >= 0, data free of NaN; distinct axis points of different datasets are resolvable by float subtraction (no two aligned points closer than one rounding error of target - v); neutral dataset labels dsA..dsD",
         "get_aligned_weight of a point none of whose datasets is weighted may be None or all ones",
         "optimize level: clps 'identical' = max abs difference <= 1e-10*scale, 'differ' = > 1e-6*scale (cases in between are discarded and counted); "
         "stacked solution compared with numpy lstsq at 1e-7*scale (matrices: 2 exponentials on 4-6 points, cond < 1e3)",
